@@ -320,8 +320,7 @@ def _ref(e, leaf_text):
         if name is not None:
             if not isinstance(name, str):
                 raise Expected("InvalidArgumentTypeException")
-            if re.fullmatch(r"[A-Za-z_][A-Za-z_0-9]*", name) is None:
-                raise Expected("InvalidCapturingGroupNameException")
+            _check_name(name)
         if r.empty:
             return r
         if r.kind == "capture":            # capture of a capture adds none; a name (re)names the outermost group
@@ -383,6 +382,16 @@ def _ref(e, leaf_text):
             r.nonrep = True
         return r
     raise ValueError(k)
+
+
+def _check_name(name):
+    """documented rule: word characters only, not starting with a digit (and re itself needs an identifier).
+    Names starting with a non-ASCII letter are documented as valid but refused by the implementation's ASCII-first
+    check: not asserted either way."""
+    if name == "" or not name.isidentifier() or re.fullmatch(r"\w+", name) is None:
+        raise Expected("InvalidCapturingGroupNameException")
+    if re.match(r"[A-Za-z_]", name) is None:
+        raise Unspecified("group name starting with a non-ASCII letter")
 
 
 def _strip_outer(rx):
